@@ -18,58 +18,69 @@ Qed.
 Theorem accept_ok_iff : forall ls ids s,
   accept_synchronization ls ids s = None <->
   s_stratum s < ls /\
-  ~ In (s_source_id s) ids /\
-  (s_stratum s <> 1 -> ~ In (s_reference_id s) ids) /\
+  (s_stratum s <> 1 -> ~ In (s_source_id s) ids /\ ~ In (s_reference_id s) ids) /\
   s_bloom s <> Some true /\
   s_reach s <> 0.
 Proof.
   intros ls ids s. unfold accept_synchronization.
   destruct (Z.geb_spec (s_stratum s) ls) as [Hs|Hs].
   { split; [discriminate|]. intros (H & _). lia. }
-  match goal with |- context [existsb ?f ids] => destruct (existsb f ids) eqn:Ee end.
-  { split; [discriminate|]. intros (_ & H1 & H2 & _). exfalso.
-    apply existsb_exists in Ee. destruct Ee as (l & Hl & E).
-    apply orb_true_iff in E. destruct E as [E|E].
-    - apply Z.eqb_eq in E. subst. auto.
-    - apply andb_true_iff in E. destruct E as [E1 E2]. apply Z.eqb_eq in E2. subst.
-      apply H2; auto. intro X. rewrite X in E1. discriminate. }
-  assert (~ In (s_source_id s) ids /\ (s_stratum s <> 1 -> ~ In (s_reference_id s) ids)) as [N1 N2].
-  { split.
-    - intro Hin. assert (existsb (fun l => (l =? s_source_id s) || (negb (s_stratum s =? 1) && (l =? s_reference_id s))) ids = true); [|congruence].
-      apply existsb_exists. exists (s_source_id s). split; auto. rewrite Z.eqb_refl. reflexivity.
-    - intros Hn Hin. assert (existsb (fun l => (l =? s_source_id s) || (negb (s_stratum s =? 1) && (l =? s_reference_id s))) ids = true); [|congruence].
-      apply existsb_exists. exists (s_reference_id s). split; auto. rewrite Z.eqb_refl.
-      destruct (Z.eqb_spec (s_stratum s) 1); [contradiction|]. apply orb_true_r. }
-  destruct (s_bloom s) as [[|]|].
-  - split; [discriminate|]. intros (_ & _ & _ & H & _). congruence.
-  - destruct (Z.eqb_spec (s_reach s) 0) as [R|R].
-    + split; [discriminate|intros (_ & _ & _ & _ & H); contradiction].
-    + split; [intros _; split; [lia|split; [exact N1|split; [exact N2|split; [discriminate|exact R]]]]|reflexivity].
-  - destruct (Z.eqb_spec (s_reach s) 0) as [R|R].
-    + split; [discriminate|intros (_ & _ & _ & _ & H); contradiction].
-    + split; [intros _; split; [lia|split; [exact N1|split; [exact N2|split; [discriminate|exact R]]]]|reflexivity].
+  set (f := fun l => (l =? s_source_id s) || (l =? s_reference_id s)).
+  destruct (Z.eqb_spec (s_stratum s) 1) as [E1|E1]; cbn [negb andb].
+  - (* stratum 1: no address comparison *)
+    destruct (s_bloom s) as [[|]|].
+    + split; [discriminate|]. intros (_ & _ & H & _). congruence.
+    + destruct (Z.eqb_spec (s_reach s) 0) as [R|R].
+      * split; [discriminate|intros (_ & _ & _ & H); contradiction].
+      * split; [intros _; split; [lia|split; [intros X; contradiction|split; [discriminate|exact R]]]|reflexivity].
+    + destruct (Z.eqb_spec (s_reach s) 0) as [R|R].
+      * split; [discriminate|intros (_ & _ & _ & H); contradiction].
+      * split; [intros _; split; [lia|split; [intros X; contradiction|split; [discriminate|exact R]]]|reflexivity].
+  - destruct (existsb f ids) eqn:Ee.
+    { split; [discriminate|]. intros (_ & H & _). destruct (H E1) as [H1 H2]. exfalso.
+      apply existsb_exists in Ee. destruct Ee as (l & Hl & E). unfold f in E.
+      apply orb_true_iff in E. destruct E as [E|E]; apply Z.eqb_eq in E; subst; auto. }
+    assert (~ In (s_source_id s) ids /\ ~ In (s_reference_id s) ids) as N.
+    { split; intro Hin; (assert (existsb f ids = true); [|congruence]); apply existsb_exists.
+      - exists (s_source_id s). split; auto. unfold f. rewrite Z.eqb_refl. reflexivity.
+      - exists (s_reference_id s). split; auto. unfold f. rewrite Z.eqb_refl. apply orb_true_r. }
+    destruct (s_bloom s) as [[|]|].
+    + split; [discriminate|]. intros (_ & _ & H & _). congruence.
+    + destruct (Z.eqb_spec (s_reach s) 0) as [R|R].
+      * split; [discriminate|intros (_ & _ & _ & H); contradiction].
+      * split; [intros _; split; [lia|split; [intros _; exact N|split; [discriminate|exact R]]]|reflexivity].
+    + destruct (Z.eqb_spec (s_reach s) 0) as [R|R].
+      * split; [discriminate|intros (_ & _ & _ & H); contradiction].
+      * split; [intros _; split; [lia|split; [intros _; exact N|split; [discriminate|exact R]]]|reflexivity].
 Qed.
 
 Theorem accept_error_cases : forall ls ids s e,
   accept_synchronization ls ids s = Some e ->
   match e with
   | Stratum => ls <= s_stratum s
-  | Loop => In (s_source_id s) ids \/ (s_stratum s <> 1 /\ In (s_reference_id s) ids) \/ s_bloom s = Some true
+  | Loop => (s_stratum s <> 1 /\ (In (s_source_id s) ids \/ In (s_reference_id s) ids)) \/ s_bloom s = Some true
   | ServerUnreachable => s_reach s = 0
   | Distance => False
   end.
 Proof.
   intros ls ids s e. unfold accept_synchronization.
   destruct (Z.geb_spec (s_stratum s) ls) as [Hs|Hs]; [intros E; inversion E; lia|].
-  match goal with |- context [existsb ?f ids] => destruct (existsb f ids) eqn:Ee end.
-  { intros E; inversion E. apply existsb_exists in Ee. destruct Ee as (l & Hl & X).
-    apply orb_true_iff in X. destruct X as [X|X].
-    - apply Z.eqb_eq in X. subst. auto.
-    - apply andb_true_iff in X. destruct X as [X1 X2]. apply Z.eqb_eq in X2. subst. right. left.
-      split; auto. intro Y. rewrite Y in X1. discriminate. }
+  set (f := fun l => (l =? s_source_id s) || (l =? s_reference_id s)).
+  destruct (negb (s_stratum s =? 1) && existsb f ids) eqn:Ee.
+  { intros E; inversion E. apply andb_true_iff in Ee. destruct Ee as [X1 X2]. left. split.
+    - intro Y. rewrite Y in X1. discriminate.
+    - apply existsb_exists in X2. destruct X2 as (l & Hl & X). unfold f in X.
+      apply orb_true_iff in X. destruct X as [X|X]; apply Z.eqb_eq in X; subst; auto. }
   destruct (s_bloom s) as [[|]|]; [intros E; inversion E; auto| |];
     (destruct (Z.eqb_spec (s_reach s) 0); intros E; inversion E; auto).
 Qed.
+
+(* the own-address test is skipped for stratum 1: a reachable stratum-1 source at
+   one of our own addresses is accepted (the reading of "this daemon itself"
+   the code implements; see the report) *)
+Lemma self_stratum1_accepted :
+  exists ls ids s, In (s_source_id s) ids /\ s_stratum s = 1 /\ accept_synchronization ls ids s = None.
+Proof. exists 16, [2130706433], (mkSnap 1 2130706433 1196446464 1 None). repeat split. left. reflexivity. Qed.
 
 (* ---------- advertisement ---------- *)
 Lemma fold_bf_add_length : forall fs f, length f = NBYTES -> Forall (fun g => length g = NBYTES) fs ->
